@@ -534,8 +534,60 @@ def r6_hoisting_asks_the_right_table(ctx):
     r3b_plan_queries_read_their_own_table(ctx)
 
 
+SIBLINGS = [("define_var", "define_bound_local"), ("assign_var", "assign_bound_local"), ("lookup_var_mut", "lookup_local_mut"),
+            ("lookup_var", "lookup_local"), ("lookup_var_ref", "lookup_local_ref"), ("lookup_env", "lookup_local_env")]
+
+
+def r7_name_and_id_variants_agree(ctx):
+    """Every variable operation exists twice - keyed by name (programs resolved without facts) and keyed by the resolver's
+    local id.  The two variants implement one semantics: same scope walk (direction, innermost-only or whole stack), same
+    promotion and slot hand-over, same failure.  Their call sequences, with the arguments spelled out and the key normalised,
+    are compared pairwise; a one-sided change (one variant searching the scope stack the other way round, one forgetting to
+    promote) shows as a difference, whichever side it is on."""
+    def signature(fn):
+        fam = [fn] + sorted(ctx.lib.closures_of(fn.id), key=lambda g: g.id)
+        out = []
+        for g in fam:
+            for c in g.calls():
+                short = (c.callee or "?").split("::")[-1]
+                # the calls that carry the semantics: how the scopes are walked, what is copied, what is handed over
+                if short not in ("iter", "iter_mut", "rev", "last", "last_mut", "first", "first_mut", "find", "rfind", "position", "rposition", "find_map",
+                                 "promote", "detach", "overwrite_slot", "push", "insert", "clone_into", "return_to_pool", "lookup_env", "lookup_local_env",
+                                 "pop", "get", "get_mut", "has_frame_arena", "map", "replace", "swap", "take"):
+                    continue
+                args = []
+                for a in c.args:
+                    t = sh(ne(g.deep(a)))
+                    t = re.sub(r"\blookup_local_env\b", "lookup_env", t)
+                    t = re.sub(r"\{closure#\d+\}::\{[^}]*\}", "{closure}", t)
+                    # variable names carry no meaning here (`v` / `value`, `name` / `local`): keep self-rooted paths, field
+                    # names and callee names, erase every other identifier
+                    t = re.sub(r"(?<![\w.])(?!self\b)([a-z_][a-z0-9_]*)\b(?!\()", "_", t)
+                    t = re.sub(r"Option::(Some\{_\}|None\{\})", "_", t)    # the slot's id: Some(local) in one variant, None in the other
+                    t = re.sub(r"\barg\d+(\.\d+)*", "_", t)
+                    args.append(t[:80])
+                out.append((re.sub(r"^lookup_local_env$", "lookup_env", short), tuple(args)))
+        return out
+    n = 0
+    for a, b in SIBLINGS:
+        fa, fb = ctx.lib.fns.get("runtime::Runtime::" + a), ctx.lib.fns.get("runtime::Runtime::" + b)
+        if fa is None or fb is None:
+            ctx.bad("siblings|%s/%s|missing" % (a, b), "src/runtime.rs", "the name-keyed / id-keyed pair %s / %s no longer exists in this form: re-audit the pairing" % (a, b))
+            continue
+        n += 1
+        ctx.touch(fa)
+        ctx.touch(fb)
+        sa, sb = signature(fa), signature(fb)
+        if sa == sb:
+            ctx.ok("siblings|%s/%s" % (a, b), fa.where(), "%d calls, identical up to the key" % len(sa))
+        else:
+            diff = next(((x, y) for x, y in zip(sa + [None] * len(sb), sb + [None] * len(sa)) if x != y), None)
+            ctx.bad("siblings|%s/%s|differ" % (a, b), fb.where(), "%s and %s do the same job keyed by name and by local id, but their call sequences differ (first difference: %s vs %s): one of them walks the scopes differently or skips a step the other performs, so programs resolved with and without binding facts behave differently" % (a, b, diff[0] if diff else None, diff[1] if diff else None))
+    ctx.floor("name-keyed / id-keyed sibling pairs", n, 5)
+
+
 RULES = [("C04-R1", r1_id_directed_lookup), ("C04-R2", r2_innermost_first), ("C04-R3", r3_sorted_tables), ("C04-R4", r4_scope_discipline), ("C04-R4b", r4b_arguments_belong_to_the_caller), ("C04-R4c", r4c_initialiser_sees_the_old_scope), ("C04-R4d", r4d_declarations_stay_in_their_block),
-         ("C04-R5", r5_recorded_is_consumed), ("C04-R5b", r5b_record_unconditional), ("C04-R5c", r5c_query_on_the_variable_node), ("C04-R6", r6_hoisting_asks_the_right_table)]
+         ("C04-R5", r5_recorded_is_consumed), ("C04-R5b", r5b_record_unconditional), ("C04-R5c", r5c_query_on_the_variable_node), ("C04-R6", r6_hoisting_asks_the_right_table), ("C04-R7", r7_name_and_id_variants_agree)]
 
 EXPLANATION = (
     "R1: at run time every name-keyed accessor is reachable only on the None outcome of the matching binding query and every "
@@ -557,6 +609,9 @@ EXPLANATION += (
 )
 EXPLANATION += (
     " R4d: a declaration creates or rebinds its variable only in the innermost scope (`env.last_mut()`), never by a walk along the scope stack. R6 (= C03-R3b): hoisting asks the plan's function-definition table, not its statement table."
+)
+EXPLANATION += (
+    ' R7: the name-keyed and id-keyed variants of every variable operation (define, assign, lookup, mutable lookup, environment walk) are compared pairwise - their sequences of semantic calls (scope walk and its direction, innermost-only or whole stack, promotion, slot hand-over, push) with arguments spelled out and every variable name erased must be identical; a one-sided change is reported whichever side it is on.'
 )
 ASSUMPTIONS = ["the AST node address identifies the node (arena-allocated, never moved)"]
 TRUSTED = ["rustc nightly MIR", "nsx exporter", "nsverif edge-dominance"]
